@@ -322,6 +322,23 @@ func (it *intent) node(n *gen.Node) bool {
 				return it.block(b.Kids)
 			}
 		}
+	case gen.KSwitch:
+		var def *gen.Branch
+		for k := range n.Chain[1:] {
+			b := &n.Chain[1+k]
+			if b.Default {
+				def = b
+				continue
+			}
+			for _, v := range b.CaseVals {
+				if v == it.e.N0 {
+					return it.block(b.Kids)
+				}
+			}
+		}
+		if def != nil {
+			return it.block(def.Kids)
+		}
 	case gen.KFor:
 		for _, x := range it.e.Xs {
 			it.loopX = append(it.loopX, x)
